@@ -80,6 +80,14 @@ func init() {
 			{Name: "agent answers through WriteStreamOpenErr with the wrong code", ExpectRule: "C20.R2", ExpectKey: "no forward handler", Edits: []Edit{
 				{File: agt, Old: "\t\t\t\tif a.forwardHandler != nil {\n\t\t\t\t\tctx := context.Background()\n\t\t\t\t\ta.forwardHandler.HandleStreamOpen(ctx, frame.StreamID, open.RequestID, peerID, key, open.EphemeralPubKey)\n\t\t\t\t} else {\n\t\t\t\t\t// No forward handler - send error\n\t\t\t\t\terrPayload := &protocol.StreamOpenErr{\n\t\t\t\t\t\tRequestID: open.RequestID,\n\t\t\t\t\t\tErrorCode: protocol.ErrForwardNotFound,\n\t\t\t\t\t\tMessage:   \"forward key not configured\",\n\t\t\t\t\t}\n\t\t\t\t\terrFrame := &protocol.Frame{\n\t\t\t\t\t\tType:     protocol.FrameStreamOpenErr,\n\t\t\t\t\t\tStreamID: frame.StreamID,\n\t\t\t\t\t\tPayload:  errPayload.Encode(),\n\t\t\t\t\t}\n\t\t\t\t\ta.peerMgr.SendToPeer(peerID, errFrame)\n\t\t\t\t}\n\t\t\t\treturn\n", New: "\t\t\t\tif a.forwardHandler == nil {\n\t\t\t\t\ta.WriteStreamOpenErr(peerID, frame.StreamID, open.RequestID, protocol.ErrGeneralFailure, \"forward key not configured\")\n\t\t\t\t\treturn\n\t\t\t\t}\n\t\t\t\ta.forwardHandler.HandleStreamOpen(context.Background(), frame.StreamID, open.RequestID, peerID, key, open.EphemeralPubKey)\n\t\t\t\treturn\n"},
 			}},
+			{Name: "constructor helper indexes the endpoints target -> key", ExpectRule: "C20.R3", ExpectKey: "constructor", Edits: []Edit{
+				{File: fwh, Old: "\ttargets := make(map[string]string)\n\tfor _, ep := range cfg.Endpoints {\n\t\ttargets[ep.Key] = ep.Target\n\t}\n", New: "\ttargets := indexEndpoints(cfg.Endpoints)\n"},
+				{File: fwh, Old: "// GetKeys returns all configured routing keys.", New: "func indexEndpoints(endpoints []Endpoint) map[string]string {\n\tbyKey := make(map[string]string)\n\tfor i := range endpoints {\n\t\tbyKey[endpoints[i].Target] = endpoints[i].Key\n\t}\n\treturn byKey\n}\n\n// GetKeys returns all configured routing keys."},
+			}},
+			{Name: "lookup helper is handed a table other than the configured one", ExpectRule: "C20.R1", ExpectKey: "address", Edits: []Edit{
+				{File: fwh, Old: "\ttarget, ok := h.targets[key]\n\tif !ok {", New: "\ttarget, ok := lookupIn(map[string]string{key: key}, key)\n\tif !ok {"},
+				{File: fwh, Old: "// GetKeys returns all configured routing keys.", New: "func lookupIn(t map[string]string, key string) (string, bool) {\n\ttarget, ok := t[key]\n\treturn target, ok\n}\n\n// GetKeys returns all configured routing keys."},
+			}},
 			// rewrites
 			{Name: "rewrite: positive ok test", Edits: []Edit{
 				{File: fwh, Old: "\ttarget, ok := h.targets[key]\n\tif !ok {\n\t\th.sendOpenErr(remoteID, streamID, requestID, protocol.ErrForwardNotFound, \"forward key not found\")\n\t\treturn fmt.Errorf(\"forward key not found: %s\", key)\n\t}\n\n\t// Perform the rest asynchronously to avoid blocking the frame processing loop.\n\tgo h.handleStreamOpenAsync(ctx, streamID, requestID, remoteID, key, target, remoteEphemeralPub)\n\n\treturn nil\n", New: "\tif target, ok := h.targets[key]; ok {\n\t\tgo h.handleStreamOpenAsync(ctx, streamID, requestID, remoteID, key, target, remoteEphemeralPub)\n\t\treturn nil\n\t}\n\th.sendOpenErr(remoteID, streamID, requestID, protocol.ErrForwardNotFound, \"forward key not found\")\n\treturn fmt.Errorf(\"forward key not found: %s\", key)\n"},
@@ -95,6 +103,14 @@ func init() {
 			}},
 			{Name: "rewrite: lookup through the exported GetTarget", Edits: []Edit{
 				{File: fwh, Old: "\ttarget, ok := h.targets[key]\n\tif !ok {", New: "\ttarget, ok := h.GetTarget(key)\n\tif !ok {"},
+			}},
+			{Name: "rewrite: key -> target map built by a constructor helper with an index loop", Edits: []Edit{
+				{File: fwh, Old: "\ttargets := make(map[string]string)\n\tfor _, ep := range cfg.Endpoints {\n\t\ttargets[ep.Key] = ep.Target\n\t}\n", New: "\ttargets := indexEndpoints(cfg.Endpoints)\n"},
+				{File: fwh, Old: "// GetKeys returns all configured routing keys.", New: "func indexEndpoints(endpoints []Endpoint) map[string]string {\n\tbyKey := make(map[string]string)\n\tfor i := range endpoints {\n\t\tbyKey[endpoints[i].Key] = endpoints[i].Target\n\t}\n\treturn byKey\n}\n\n// GetKeys returns all configured routing keys."},
+			}},
+			{Name: "rewrite: lookup through a helper that is handed the table", Edits: []Edit{
+				{File: fwh, Old: "\ttarget, ok := h.targets[key]\n\tif !ok {", New: "\ttarget, ok := lookupIn(h.targets, key)\n\tif !ok {"},
+				{File: fwh, Old: "// GetKeys returns all configured routing keys.", New: "func lookupIn(t map[string]string, key string) (string, bool) {\n\ttarget, ok := t[key]\n\treturn target, ok\n}\n\n// GetKeys returns all configured routing keys."},
 			}},
 			{Name: "rewrite: agent answers through WriteStreamOpenErr, nil test first", Edits: []Edit{
 				{File: agt, Old: "\t\t\t\tif a.forwardHandler != nil {\n\t\t\t\t\tctx := context.Background()\n\t\t\t\t\ta.forwardHandler.HandleStreamOpen(ctx, frame.StreamID, open.RequestID, peerID, key, open.EphemeralPubKey)\n\t\t\t\t} else {\n\t\t\t\t\t// No forward handler - send error\n\t\t\t\t\terrPayload := &protocol.StreamOpenErr{\n\t\t\t\t\t\tRequestID: open.RequestID,\n\t\t\t\t\t\tErrorCode: protocol.ErrForwardNotFound,\n\t\t\t\t\t\tMessage:   \"forward key not configured\",\n\t\t\t\t\t}\n\t\t\t\t\terrFrame := &protocol.Frame{\n\t\t\t\t\t\tType:     protocol.FrameStreamOpenErr,\n\t\t\t\t\t\tStreamID: frame.StreamID,\n\t\t\t\t\t\tPayload:  errPayload.Encode(),\n\t\t\t\t\t}\n\t\t\t\t\ta.peerMgr.SendToPeer(peerID, errFrame)\n\t\t\t\t}\n\t\t\t\treturn\n", New: "\t\t\t\tif a.forwardHandler == nil {\n\t\t\t\t\ta.WriteStreamOpenErr(peerID, frame.StreamID, open.RequestID, protocol.ErrForwardNotFound, \"forward key not configured\")\n\t\t\t\t\treturn\n\t\t\t\t}\n\t\t\t\ta.forwardHandler.HandleStreamOpen(context.Background(), frame.StreamID, open.RequestID, peerID, key, open.EphemeralPubKey)\n\t\t\t\treturn\n"},
@@ -274,46 +290,90 @@ type c20Lk struct {
 	tuple         ssa.Value       // the value whose extracts carry (target, ok); the target itself when valIdx < 0
 	key           ssa.Value       // key operand
 	valIdx, okIdx int             // tuple indexes; -1 = not a tuple / no ok flag
+	// mapPar != nil: the table consulted is this map-typed parameter of the enclosing function (a
+	// method of a table type, or a helper that is handed the table); it is the targets table only if
+	// the caller passes Handler.targets for it.
+	mapPar *ssa.Parameter
 }
 
 type c20Helper struct {
 	valIdx, okIdx, keyArg int // result indexes and the index of the key in Common().Args
+	mapArg                int // index of the table argument, -1 when the helper reads Handler.targets itself
 }
 
-func (cx *c20Ctx) directLookup(v ssa.Value) *ssa.Lookup {
-	switch x := v.(type) {
-	case *ssa.Extract:
-		if lk, ok := x.Tuple.(*ssa.Lookup); ok && x.Index == 0 {
-			if f, _ := kit.LoadedField(lk.X); f == cx.fTargets {
-				return lk
-			}
-		}
-	case *ssa.Lookup:
-		if f, _ := kit.LoadedField(x.X); f == cx.fTargets && !x.CommaOk {
-			return x
+// tableOperand classifies the map operand of a lookup: Handler.targets itself, or a parameter of
+// the enclosing function that has the table's type.
+func (cx *c20Ctx) tableOperand(v ssa.Value) (isField bool, par *ssa.Parameter) {
+	if f, _ := kit.LoadedField(v); f == cx.fTargets {
+		return true, nil
+	}
+	if os := kit.Origins(v); len(os) == 1 {
+		if q, ok := os[0].(*ssa.Parameter); ok && types.Identical(q.Type().Underlying(), cx.fTargets.Type().Underlying()) {
+			return false, q
 		}
 	}
-	return nil
+	return false, nil
 }
 
-// helperSummary recognises func(key string) (target string[, ok bool]) helpers whose every return is
-// the result of a targets lookup keyed by the key parameter unchanged.
+func (cx *c20Ctx) rawLookup(v ssa.Value) (*ssa.Lookup, *ssa.Parameter) {
+	var lk *ssa.Lookup
+	switch x := v.(type) {
+	case *ssa.Extract:
+		if l, ok := x.Tuple.(*ssa.Lookup); ok && x.Index == 0 {
+			lk = l
+		}
+	case *ssa.Lookup:
+		if !x.CommaOk {
+			lk = x
+		}
+	}
+	if lk == nil {
+		return nil, nil
+	}
+	isField, par := cx.tableOperand(lk.X)
+	if !isField && par == nil {
+		return nil, nil
+	}
+	return lk, par
+}
+
+// helperSummary recognises helpers (functions or methods of package forward) whose string result is
+// always the result of a table lookup keyed by one of their parameters unchanged — directly or
+// through another such helper — and whose bool result, if any, is that lookup's ok flag.
 func (cx *c20Ctx) helperSummary(h *ssa.Function) (c20Helper, bool) {
 	if s, ok := cx.helpers[h]; ok {
 		return s, s.valIdx >= 0
 	}
-	sum := c20Helper{-1, -1, -1}
+	sum := c20Helper{-1, -1, -1, -1}
 	cx.helpers[h] = sum
 	if h == nil || h.Blocks == nil || kit.FuncPkgPath(h) != kit.PkgPath("internal/forward") {
 		return sum, false
 	}
+	parIdx := func(v ssa.Value) int {
+		os := kit.Origins(v)
+		if len(os) != 1 {
+			return -1
+		}
+		q, ok := os[0].(*ssa.Parameter)
+		if !ok || q.Parent() != h {
+			return -1
+		}
+		for i, fp := range h.Params {
+			if fp == q {
+				return i
+			}
+		}
+		return -1
+	}
 	res := h.Signature.Results()
 	rets := kit.Returns(h)
+	var lks []*c20Lk
 	for i := 0; i < res.Len(); i++ {
 		if !kit.IsStringType(res.At(i).Type()) {
 			continue
 		}
-		all, keyArg := len(rets) > 0, -1
+		all, keyArg, mapArg, first := len(rets) > 0, -1, -1, true
+		var found []*c20Lk
 		for _, ret := range rets {
 			if ret.Block() == h.Recover {
 				continue
@@ -323,33 +383,30 @@ func (cx *c20Ctx) helperSummary(h *ssa.Function) (c20Helper, bool) {
 				all = false
 			}
 			for _, o := range os {
-				lk := cx.directLookup(o)
+				lk := cx.lookupOf(o)
 				if lk == nil {
 					all = false
 					continue
 				}
-				ko := kit.Origins(lk.Index)
-				q, isPar := (ssa.Value)(nil), false
-				if len(ko) == 1 {
-					q, isPar = ko[0], true
+				ki := parIdx(lk.key)
+				mi := -1
+				if lk.mapPar != nil {
+					mi = parIdx(lk.mapPar)
+					if mi < 0 {
+						all = false
+					}
 				}
-				par, _ := q.(*ssa.Parameter)
-				if !isPar || par == nil || par.Parent() != h {
+				if ki < 0 || (!first && (ki != keyArg || mi != mapArg)) {
 					all = false
 					continue
 				}
-				for pi, fp := range h.Params {
-					if fp == par {
-						if keyArg >= 0 && keyArg != pi {
-							all = false
-						}
-						keyArg = pi
-					}
-				}
+				keyArg, mapArg, first = ki, mi, false
+				found = append(found, lk)
 			}
 		}
 		if all && keyArg >= 0 {
-			sum.valIdx, sum.keyArg = i, keyArg
+			sum.valIdx, sum.keyArg, sum.mapArg = i, keyArg, mapArg
+			lks = found
 		}
 	}
 	if sum.valIdx >= 0 {
@@ -365,12 +422,13 @@ func (cx *c20Ctx) helperSummary(h *ssa.Function) (c20Helper, bool) {
 				}
 				for _, o := range kit.Origins(kit.ReturnResult(ret, j)) {
 					e, ok := o.(*ssa.Extract)
-					if !ok || e.Index != 1 {
-						all = false
-						continue
+					match := false
+					for _, lk := range lks {
+						if ok && lk.okIdx >= 0 && e.Tuple == lk.tuple && e.Index == lk.okIdx {
+							match = true
+						}
 					}
-					lk, ok := e.Tuple.(*ssa.Lookup)
-					if f, _ := kit.LoadedField(lkX(lk, ok)); !ok || f != cx.fTargets {
+					if !match {
 						all = false
 					}
 				}
@@ -384,13 +442,6 @@ func (cx *c20Ctx) helperSummary(h *ssa.Function) (c20Helper, bool) {
 	return sum, sum.valIdx >= 0
 }
 
-func lkX(lk *ssa.Lookup, ok bool) ssa.Value {
-	if !ok || lk == nil {
-		return nil
-	}
-	return lk.X
-}
-
 // lookupOf: v is the target value of a consultation of the table; returns its (canonical) record.
 func (cx *c20Ctx) lookupOf(v ssa.Value) *c20Lk {
 	mk := func(at ssa.Instruction, rec c20Lk) *c20Lk {
@@ -401,11 +452,11 @@ func (cx *c20Ctx) lookupOf(v ssa.Value) *c20Lk {
 		cx.lks[at] = &rec
 		return &rec
 	}
-	if lk := cx.directLookup(v); lk != nil {
+	if lk, par := cx.rawLookup(v); lk != nil {
 		if lk.CommaOk {
-			return mk(lk, c20Lk{tuple: lk, key: lk.Index, valIdx: 0, okIdx: 1})
+			return mk(lk, c20Lk{tuple: lk, key: lk.Index, valIdx: 0, okIdx: 1, mapPar: par})
 		}
-		return mk(lk, c20Lk{tuple: lk, key: lk.Index, valIdx: -1, okIdx: -1})
+		return mk(lk, c20Lk{tuple: lk, key: lk.Index, valIdx: -1, okIdx: -1, mapPar: par})
 	}
 	var call *ssa.Call
 	idx := -1
@@ -420,10 +471,17 @@ func (cx *c20Ctx) lookupOf(v ssa.Value) *c20Lk {
 		return nil
 	}
 	sum, ok := cx.helperSummary(kit.CalleeOf(call).Static)
-	if !ok || sum.valIdx != idx || sum.keyArg >= len(call.Call.Args) {
+	if !ok || sum.valIdx != idx || sum.keyArg >= len(call.Call.Args) || sum.mapArg >= len(call.Call.Args) {
 		return nil
 	}
 	rec := c20Lk{tuple: call, key: call.Call.Args[sum.keyArg], valIdx: sum.valIdx, okIdx: sum.okIdx}
+	if sum.mapArg >= 0 {
+		isField, par := cx.tableOperand(call.Call.Args[sum.mapArg])
+		if !isField && par == nil {
+			return nil
+		}
+		rec.mapPar = par
+	}
 	if call.Call.Signature().Results().Len() == 1 {
 		rec.valIdx = -1
 	}
@@ -514,6 +572,9 @@ func (cx *c20Ctx) ruleR1() map[ssa.Instruction]*c20Lk {
 			whyAddr, whyKey, whyGuard := "", "", ""
 			for _, o := range origins {
 				lk := cx.lookupOf(o.val)
+				if lk != nil && lk.mapPar != nil {
+					lk = nil // a lookup in some table handed in, not shown to be Handler.targets
+				}
 				if lk == nil {
 					okAddr = false
 					whyAddr = fmt.Sprintf("%s in %s", c20Describe(o.val), kit.FuncName(o.fn))
@@ -856,10 +917,36 @@ func (cx *c20Ctx) ruleR3() {
 		}
 		// the stored map: every insertion is Endpoint.Key -> Endpoint.Target of the same endpoint
 		okAll, why, nIns := true, "", 0
+		// the stored map, followed through constructor helpers of the package (indexEndpoints,
+		// newTargetTable ...) and maps.Clone
 		var maps []ssa.Value
-		for _, o := range kit.Origins(acc.Val) {
-			maps = append(maps, o)
+		var expand func(v ssa.Value, depth int)
+		expand = func(v ssa.Value, depth int) {
+			for _, o := range kit.Origins(v) {
+				if c, ok := o.(*ssa.Call); ok && depth < 3 {
+					cal := kit.CalleeOf(c)
+					if cal.Pkg == "maps" && cal.Name == "Clone" && len(c.Call.Args) == 1 {
+						expand(c.Call.Args[0], depth+1)
+						continue
+					}
+					if h := cal.Static; h != nil && h.Blocks != nil && kit.FuncPkgPath(h) == kit.PkgPath("internal/forward") {
+						n := 0
+						for _, ret := range kit.Returns(h) {
+							if ret.Block() == h.Recover || len(ret.Results) == 0 {
+								continue
+							}
+							n++
+							expand(kit.ReturnResult(ret, 0), depth+1)
+						}
+						if n > 0 {
+							continue
+						}
+					}
+				}
+				maps = append(maps, o)
+			}
 		}
+		expand(acc.Val, 0)
 		for _, m := range maps {
 			mm, isMake := m.(*ssa.MakeMap)
 			if !isMake || mm.Referrers() == nil {
@@ -916,6 +1003,9 @@ func c20SameElem(a, b ssa.Value) bool {
 	ia, ok1 := a.(*ssa.IndexAddr)
 	ib, ok2 := b.(*ssa.IndexAddr)
 	if ok1 && ok2 && ia.Index == ib.Index {
+		if ia.X == ib.X {
+			return true // the same slice value (a parameter, a local)
+		}
 		fa, _ := kit.LoadedField(ia.X)
 		fb, _ := kit.LoadedField(ib.X)
 		return fa != nil && fa == fb
